@@ -7,6 +7,9 @@
 //! whole_font, prince subset, instance, WOFF/WOFF2 table decoding, preprocess_text) are repeated
 //! in-process and compared byte for byte (see c03_pure.rs).
 
+#[path = "c04_gen.rs"]
+#[allow(dead_code)]
+mod g4c;
 #[path = "c03_gen.rs"]
 pub mod c03_gen;
 #[path = "c03_outline.rs"]
@@ -763,6 +766,10 @@ enum FontClass {
     /// several strikes over different glyph sets, so that which strike serves a glyph depends on the
     /// glyph, the size and the bit depth asked for
     GenImages,
+    /// a font built from a generated GSUB program of the C04 generator (all lookup types, contexts
+    /// nested up to four deep - beyond allsorts' nesting limit, so some calls end in an error -, lookup
+    /// flags, feature variations): histories mix calls that fail part-way with calls that succeed
+    Program,
 }
 
 impl C03 {
@@ -1262,6 +1269,55 @@ impl C03 {
                     }
                 }
             }
+            FontClass::Program => {
+                gen = None;
+                let wide = rng.chance(2, 3);
+                let mut go = g4c::gen_program(rng, !wide);
+                let l4 = crate::sfnt::cmap::Layout4::choose(&go.prog.cmap, rng);
+                let cmap_table = crate::sfnt::cmap::write_cmap(&[crate::sfnt::cmap::Record { platform: 3, encoding: 1, subtable: 0 }], &[l4.write(0)]);
+                let mut built = go.prog.build(cmap_table.clone());
+                if built.is_err() {
+                    // 16-bit offsets overflowed: extension lookups, no padding (as the C04 check does)
+                    for l in go.prog.gsub.lookups.iter_mut() {
+                        l.ext = true;
+                        l.pad = 0;
+                    }
+                    built = go.prog.build(cmap_table);
+                }
+                let built = match built {
+                    Ok(b) => b,
+                    Err(_) => {
+                        cx.inconclusive("program:writer-overflow");
+                        return;
+                    }
+                };
+                let rf = match classify("c04-program", built.font) {
+                    Some(r) => r,
+                    None => {
+                        cx.inconclusive("program:font-not-loadable");
+                        return;
+                    }
+                };
+                let tuples = if rf.has_fvar { self.real_tuples(&rf, rng) } else { Vec::new() };
+                let mut pools = self.real_pools(&rf, class, tuples.len(), rng);
+                // texts aimed at the program's lookups (the C04 string generator), as characters
+                let all: Vec<u16> = (0..go.prog.gsub.lookups.len() as u16).collect();
+                let mut texts = Vec::new();
+                for _ in 0..(4 + rng.below(4)) {
+                    let gids = g4c::gen_string(rng, &go, &all);
+                    let s: String = gids.iter().filter_map(|g| go.prog.cmap.iter().find(|(_, v)| *v == g).and_then(|(c, _)| char::from_u32(*c))).collect();
+                    if !s.is_empty() {
+                        let sc = *rng.pick(&pools.scripts);
+                        texts.push((s, sc));
+                    }
+                }
+                if !texts.is_empty() {
+                    pools.texts = texts;
+                }
+                cx.class(if wide { "program-font:wide" } else { "program-font:core" });
+                faulted_bytes = rf.data;
+                (faulted_bytes.as_slice(), "c04-program".to_string(), tuples, pools)
+            }
             FontClass::Faulted => {
                 gen = None;
                 let f = &self.fonts[*rng.pick(&self.all)];
@@ -1334,6 +1390,7 @@ impl C03 {
         let mut history: Vec<Op> = Vec::new();
         let mut any_hit_after_different_args = false;
         let mut compared = 0u64;
+        let mut program_failed_before = false;
         let mut violated = false;
         for step in 0..n_ops {
             let op = if many && !history.is_empty() && (step + 12 >= n_ops || rng.chance(1, 5)) {
@@ -1361,6 +1418,14 @@ impl C03 {
             let got = got.unwrap_or_else(|e| e);
             compared += 1;
             cx.class(&format!("compared:{}", op.kind()));
+            if class == FontClass::Program && matches!(op, Op::Shape(_)) {
+                if fresh.contains("Err(") {
+                    cx.class("program-font:shape-call-ends-in-error");
+                    program_failed_before = true;
+                } else if program_failed_before {
+                    cx.class("program-font:shape-call-succeeds-after-a-failed-one");
+                }
+            }
             if class == FontClass::GenImages && matches!(op, Op::Image { .. }) && fresh.starts_with("Ok(Some(") {
                 cx.class("gen-images:image-returned");
                 // two different strikes / images returned within one history?
@@ -1719,6 +1784,7 @@ impl Prop for C03 {
             "any" => self.history_case(cx, rng, FontClass::Any, false),
             "faulted" => self.history_case(cx, rng, FontClass::Faulted, false),
             "genimages" => self.history_case(cx, rng, FontClass::GenImages, false),
+            "program" => self.history_case(cx, rng, FontClass::Program, false),
             "many" => {
                 let c = *rng.pick(&[FontClass::Generated, FontClass::Generated, FontClass::Generated, FontClass::Shaping, FontClass::Variable]);
                 self.history_case(cx, rng, c, true)
@@ -1735,7 +1801,8 @@ impl Prop for C03 {
                 72..=83 => self.history_case(cx, rng, FontClass::Variable, false),
                 84..=86 => self.history_case(cx, rng, FontClass::Images, false),
                 87..=89 => self.history_case(cx, rng, FontClass::GenImages, false),
-                90..=94 => self.history_case(cx, rng, FontClass::Faulted, false),
+                90..=92 => self.history_case(cx, rng, FontClass::Faulted, false),
+                93..=96 => self.history_case(cx, rng, FontClass::Program, false),
                 _ => self.history_case(cx, rng, FontClass::Any, false),
             },
         }
